@@ -22,6 +22,22 @@ CLAIMED = {
             'all chunk sizes, byte-level partitions of utf-8/latin-1 encodings, with and without header, and compared with TLC\'s RefRead; recorded read-event traces of bigger random texts are validated step by step by TLC (CsvReaderTrace).',
             'Exhaustive within the bound (quick: texts <= 4 over 7 symbols; thorough: <= 6); single-character delimiter and comment prefix; TextIOWrapper (stdlib) does the incremental decoding.',
             'TLA+ reader state machine with nondeterministic short reads model-checked by TLC; exhaustive schedule replay; stepwise trace validation by TLC'),
+
+    'C01': ('5 C01, 3.2',
+            'TLC explores RbqlEngine (state machine of API events: get_record / per-match evaluation / UNNEST expansion / leaf writes) over every query of the C01 families (item lists over field, expression, literal, NR/NF, star forms, EXCEPT, 3 UNNEST forms; WHERE incl. truthiness; inner/left joins) and every small table, proving machine = Ref (declarative relational meaning), streamed output a prefix of it; every terminal case is rendered to RBQL text and run through rbql.query of the tree, rows/header/error compared with Ref; recorded events judged by TLC monitors (EngineTrace).',
+            'Exhaustive only within the bounds of the MC_Engine families (tables of <= 2-4 records over 2-3 cell values, select lists of <= 2 items from the RbqlValues vocabulary); arbitrary user expressions are outside the vocabulary. TLC, the JSON bridge, the renderer (abstract query -> RBQL text) and the projections are trusted; the renderer varies interchangeable spellings.', 'TLA+ engine spec (operational machine vs declarative Ref) model-checked by TLC; exhaustive spec->code replay of TLC-emitted cases; TLC monitors over recorded events'),
+    'C02': ('5 C02, 3.2',
+            'Same machinery over the C02 families: ORDER BY 1-2 keys asc/desc x {none, DISTINCT, DISTINCT COUNT} x {none, TOP/LIMIT n in 0..|T|+1} x {WHERE, JOIN multi-match, UNNEST} over tables with duplicate keys; TLC proves the writer chain Sorted->Uniq|UniqCount->Top computes Take(n, Dist(Sort(base))) with DESC = reverse, checks the sort operator against the wording (permutation, non-decreasing, ties in emission order) and PullBound; replay compares rows and judges the number of get_record calls with the PullBound monitor.',
+            'Exhaustive only within the bounds of the MC_Engine families (tables of <= 2-4 records over 2-3 cell values, select lists of <= 2 items from the RbqlValues vocabulary); arbitrary user expressions are outside the vocabulary. TLC, the JSON bridge, the renderer (abstract query -> RBQL text) and the projections are trusted; the renderer varies interchangeable spellings.' + ' Weak reading of "stops pulling" (stops at the record yielding the first candidate beyond the bound); termination on unbounded input follows from PullBound for inputs whose records keep reaching the TopWriter.', 'TLA+ engine spec (operational machine vs declarative Ref) model-checked by TLC; exhaustive spec->code replay of TLC-emitted cases; TLC monitors over recorded events'),
+    'C04': ('5 C04, 3.2',
+            'Same machinery over the join families: {inner, left, strict} x key shapes {a1==b1, NR==bNR, a2==b1, two pairs, NR==b1} x downstream {fields, star forms, WHERE on b, UNNEST, ORDER/DISTINCT/TOP, UPDATE} over tables incl. empty, duplicate-key and ragged B; Ref = declarative join expansion (Partners in B order, null partner, strict errors, missing key field errors); monitor: B is read completely before the first A record.',
+            'Exhaustive only within the bounds of the MC_Engine families (tables of <= 2-4 records over 2-3 cell values, select lists of <= 2 items from the RbqlValues vocabulary); arbitrary user expressions are outside the vocabulary. TLC, the JSON bridge, the renderer (abstract query -> RBQL text) and the projections are trusted; the renderer varies interchangeable spellings.', 'TLA+ engine spec (operational machine vs declarative Ref) model-checked by TLC; exhaustive spec->code replay of TLC-emitted cases; TLC monitors over recorded events'),
+    'C05': ('5 C05, 3.2',
+            'Same machinery over UPDATE families: 1..2 assignments (targets a1..a3 rendered aN / a[N] / a.name / a["name"]) x rhs {literal, field, concatenation, NU} x WHERE x {no join, inner, left, strict}; Ref is declarative (each assigned field = rhs on the ORIGINAL record, others untouched, NU = count so far, assignment beyond NF errs naming record and field) while the machine copies and assigns sequentially; TLC proves them equal.',
+            'Exhaustive only within the bounds of the MC_Engine families (tables of <= 2-4 records over 2-3 cell values, select lists of <= 2 items from the RbqlValues vocabulary); arbitrary user expressions are outside the vocabulary. TLC, the JSON bridge, the renderer (abstract query -> RBQL text) and the projections are trusted; the renderer varies interchangeable spellings.', 'TLA+ engine spec (operational machine vs declarative Ref) model-checked by TLC; exhaustive spec->code replay of TLC-emitted cases; TLC monitors over recorded events'),
+    'C07': ('5 C07, 3.2',
+            'Same machinery over header families: select lists of 1..2 items over {aN, a[N], a.name, a["name"], NR, expression, *, a.*, b.*, AS aliases, UNNEST} x {DISTINCT, DISTINCT COUNT, TOP} x {header, no header} x {join, no join}, UPDATE and EXCEPT; HeaderRef states the naming rules; invariant HeaderWidth; replay compares the header handed to the writer (names and width).',
+            'Exhaustive only within the bounds of the MC_Engine families (tables of <= 2-4 records over 2-3 cell values, select lists of <= 2 items from the RbqlValues vocabulary); arbitrary user expressions are outside the vocabulary. TLC, the JSON bridge, the renderer (abstract query -> RBQL text) and the projections are trusted; the renderer varies interchangeable spellings.' + ' Column names are identifier-like here (awkward names belong to C09).', 'TLA+ engine spec (operational machine vs declarative Ref) model-checked by TLC; exhaustive spec->code replay of TLC-emitted cases; TLC monitors over recorded events'),
 }
 
 PENDING_REASON = 'check not built yet in this session (specification work in progress; see DESIGN.md section 5 for the plan)'
